@@ -44,15 +44,25 @@ def native_on_off(shape, seed, container="set"):
         outs = []
         for cse in (True, False):
             model = py.compile(sc.ui_model(ui, container), calibration_map=dict(sc.calibration_map), config={"common_subexpression_elimination": cse})
-            pt = sc.point(seed)
-            state = model.State(**{s.name: float(pt[s]) for s in sc.state})
-            control = model.Control(**{u.name: float(pt[u]) for u in sc.control})
-            out = model.model(float(pt[sc.dt]), state, control) if sc.control else model.model(float(pt[sc.dt]), state)
-            outs.append([float(v) for v in out.data[:, 0]])
-            for idx, s in enumerate(model.arglist_state):
-                want = float(scenarios.exact(sc.state_model[s], pt))
-                if abs(outs[-1][idx] - want) > 1e-9 * max(1.0, abs(want)):
-                    problems.append(f"cse={cse}: state {s.name} = {outs[-1][idx]}, expression value {want}")
+            from fractions import Fraction
+
+            p0 = sc.point(seed)
+            fixed = set(sc.calibration) | {sc.dt}
+            # the SAME compiled object at a point, at two nearby points (relative 4e-6, absolute 2^-28) and back
+            p1 = {kk: (v * Fraction(1000004, 1000000) if kk not in fixed else v) for kk, v in p0.items()}
+            p2 = {kk: (v + Fraction(1, 2**28) if kk not in fixed else v) for kk, v in p1.items()}
+            run_outs = []
+            for step, pt in enumerate([p0, p1, p2, p0]):
+                state = model.State(**{s.name: float(pt[s]) for s in sc.state})
+                control = model.Control(**{u.name: float(pt[u]) for u in sc.control})
+                out = model.model(float(pt[sc.dt]), state, control) if sc.control else model.model(float(pt[sc.dt]), state)
+                vals = [float(v) for v in out.data[:, 0]]
+                run_outs += vals
+                for idx, s in enumerate(model.arglist_state):
+                    want = float(scenarios.exact(sc.state_model[s], pt))
+                    if abs(vals[idx] - want) > 1e-9 * max(1.0, abs(want)):
+                        problems.append(f"cse={cse}, call {step} on the same compiled model: state {s.name} = {vals[idx]}, expression value {want}")
+            outs.append(run_outs)
         if not problems and any(abs(a - b) > 1e-9 * max(1.0, abs(a)) for a, b in zip(*outs)):
             problems.append(f"CSE on and off disagree: {outs[0]} vs {outs[1]}")
     except Exception as e:
@@ -113,7 +123,10 @@ def check(run):
     if problems:
         fails += 1
         run.findings.append(Finding("C08.py.native_sign_sensitive", "python", problems[0], {"language": "python", "inputs": {"shape": [2, 2, 0], "seed": run.seed, "sign_sensitive": True}, "oracle_verdict": problems[:3]}, True))
-    run.bounded.append({"what": "compiled python model with nested shared sub-expressions: CSE on vs off vs exact sympy", "bound": f"{len(shapes)} programs", "failures": fails, "counted_as_proved": False})
+    from checks import C01
+
+    C01.native_branchy(run, "C08")
+    run.bounded.append({"what": "compiled python model with nested shared sub-expressions: CSE on vs off vs exact sympy, four calls on the same compiled object (a point, two nearby points, the first point again)", "bound": f"{len(shapes)} programs", "failures": fails, "counted_as_proved": False})
     try:
         from checks import cxx_generated
 
@@ -133,6 +146,10 @@ def cxx_ssa_native(shape, seed, container="set"):
 
 def replay_file(payload):
     inp = payload["inputs"]
+    if inp.get("branchy"):
+        from checks import C01
+
+        return C01.replay_file(payload)
     if inp.get("sign_sensitive") or inp.get("extra_scenario"):
         problems, sc = native_sign_sensitive()
         print("replay C08:", problems[:2] or "sign-sensitive shared sub-expressions agree")
